@@ -150,6 +150,30 @@ Theorem C09_assimilation_nonneg_partial :
   0 <= as_dgac x /\ 0 <= as_dgao x /\ 0 < as_dle x /\ 0 <= as_trrel x /\ 0 <= as_maint_pot x /\ fst (assim_of x) < 0).
 Proof. exact (conj assim_nonneg_lemma assim_negative_witness). Qed.
 
+(* Day lengths of CalculateDayLenght (solar.go:19-27), the driver of radia() and the phenology: (1) 0 <= hours <= 24 whenever the
+   arcsine oracle lies in [-pi/2, pi/2]; (2) with the true arcsine and pi: for ALL values of SINLD, COSLD (every latitude strictly
+   between the poles, every day) the three arguments lie in [-1,1] - the clamp is applied AFTER the twilight shift - and
+   0 <= DL, DLE, DLP <= 24.  Season means of the crop record (nitro.go:327-328): (3) in [0,1] for factors in [0,1] and every positive
+   number of days ERNTE - SAAT; (4) a difference of day-of-year numbers is negative for crops growing across the turn of the year *)
+Theorem C09_daylength_season_mean_partial :
+  (forall (pi v : R),
+  0 < pi -> - (pi / 2) <= v <= pi / 2 -> 0 <= dl_hours pi v <= 24)
+  /\
+  (forall (sinld cosld s8 s6 : R),
+  let a := dl_args {| dl_sinld := sinld; dl_cosld := cosld; dl_s8 := s8; dl_s6 := s6; dl_pi := PI; dl_v0 := 0; dl_v1 := 0; dl_v2 := 0 |} in
+  let x := {| dl_sinld := sinld; dl_cosld := cosld; dl_s8 := s8; dl_s6 := s6; dl_pi := PI;
+              dl_v0 := asin (fst (fst a)); dl_v1 := asin (snd (fst a)); dl_v2 := asin (snd a) |} in
+  (-1 <= fst (fst a) <= 1 /\ -1 <= snd (fst a) <= 1 /\ -1 <= snd a <= 1) /\
+  (0 <= fst (fst (daylengths x)) <= 24 /\ 0 <= snd (fst (daylengths x)) <= 24 /\ 0 <= snd (daylengths x) <= 24))
+  /\
+  (forall (vs : list R) (saat ernte : Z),
+  Forall (fun v => 0 <= v <= 1) vs -> (saat < ernte)%Z -> (Z.of_nat (length vs) <= ernte - saat)%Z ->
+  0 <= season_mean (Rsum vs) saat ernte <= 1)
+  /\
+  (let sow_doy := 278%Z in let harvest_doy := 213%Z in
+  @div R RNum 150 (ofZ (harvest_doy - sow_doy)) < 0).
+Proof. exact (conj dl_hours_range (conj daylengths_range_lemma (conj season_mean_range_lemma season_mean_doy_witness))). Qed.
+
 (* non-vacuity: the shipped winter-wheat rows 1 and 2 are rows of shares *)
 Example C09b_nonvacuous : row_ok [(5, 1%nat); (5, 1%nat); (0, 0%nat); (0, 0%nat)]%Z = true /\ row_ok [(2, 1%nat); (6, 1%nat); (2, 1%nat); (0, 0%nat)]%Z = true.
 Proof. exact (conj eq_refl eq_refl). Qed.
@@ -162,3 +186,4 @@ Print Assumptions C09_uptake_le_supply_partial.
 Print Assumptions C09_partition_conservation_partial.
 Print Assumptions C09_dry_matter_conservation_partial.
 Print Assumptions C09_assimilation_nonneg_partial.
+Print Assumptions C09_daylength_season_mean_partial.
